@@ -156,8 +156,11 @@ class ScipyGlobalOpt(BaseOptimizationLibrary):
         # call the objective very often when the problem
         # is very constrained (Power2) and OptProblem may fail
         # to detect the optimum.
-        if problem.constraints:
-            problem.add_listener(self._iter_callback)
+        # The listener is bound to this library:
+        # it must not outlive the execution.
+        has_listener = bool(
+            problem.constraints
+        ) and problem.database.add_new_iter_listener(self._iter_callback)
 
         # Filter settings to get only the ones of the global optimizer
         settings_ = self._filter_settings(settings, BaseOptimizerSettings)
@@ -181,11 +184,17 @@ class ScipyGlobalOpt(BaseOptimizationLibrary):
             settings_["maxiter"] = maxsize
 
         global_optimizer = self.__NAMES_TO_FUNCTIONS[self._algo_name]
-        opt_result = global_optimizer(
-            func=self._compute_objective,
-            bounds=bounds,
-            **settings_,
-        )
+        try:
+            opt_result = global_optimizer(
+                func=self._compute_objective,
+                bounds=bounds,
+                **settings_,
+            )
+        finally:
+            if has_listener:
+                problem.database.clear_listeners(
+                    new_iter_listeners=[self._iter_callback], store_listeners=None
+                )
 
         return opt_result.message, opt_result.success
 
